@@ -689,11 +689,11 @@ def kw_configs(scheme, k, triples=False):
 def loc_calls(thorough_triples):
     if thorough_triples:
         schemes = ("http", "https", "HTTP")
-        hosts = (HOST, HOST_MIXED, "other.test")
+        hosts = (HOST, HOST_MIXED, "other.test", HOST + ".")
         ports = (None, 80, 443)
     else:
         schemes = ("http", "https", "HTTP", "HttpS")
-        hosts = (HOST, HOST.upper(), HOST_MIXED, "other.test")
+        hosts = (HOST, HOST.upper(), HOST_MIXED, "other.test", HOST + ".")  # absolute (dotted) name: another target
         ports = (None, 80, 443, 8080)
     calls = []
     for entry in ENTRIES:
@@ -709,6 +709,48 @@ def loc_calls(thorough_triples):
 LOC_CONFIGS = (("empty", "ctor"), ("common", "ctor"), ("common", "kwargs"))
 
 
+# ---- forwarded requests of a ProxyManager: the pool is the pool to the PROXY, but the settings given with the call
+# are connection settings all the same - two calls that differ in one of them must not share it
+PROXY_OWN = ("_proxy", "_proxy_headers", "_proxy_config", "proxy", "proxy_headers", "proxy_config")
+
+
+def run_proxy_forwarded(k, acc):
+    from urllib3 import ProxyManager
+    u = universe()
+    if k in PROXY_OWN or k in u.manager_named:
+        return
+    for entry in ("host", "url"):
+        for proxy_url in ("http://proxy.test:3128", "https://proxy.test:3129"):
+            spec = {"kind": "proxy-forwarded", "kw": k, "entry": entry, "proxy": proxy_url}
+            acc.n += 1
+            acc.counters["proxy_forwarded_cases"] += 1
+            with warnings.catch_warnings():
+                warnings.simplefilter("ignore")
+                mgr = ProxyManager(proxy_url)
+                got = []
+                for vid in ("A", "B", "A"):
+                    try:
+                        got.append(_invoke(mgr, entry, ["http", HOST, 80 if entry == "host" else None], {k: value(k, vid)}, None))
+                    except TypeError:
+                        got.append(None)  # a keyword the http classes do not take may be rejected
+                    except Exception as e:  # noqa: BLE001
+                        got.append(None)
+                        acc.counters["proxy_forwarded_other_exception:" + type(e).__name__] += 1
+                mgr.clear()
+            a1, b, a2 = got
+            if a1 is None or b is None or a2 is None:
+                acc.outcomes["proxy-forwarded/rejected"] += 1
+                continue
+            if a1 is b:
+                acc.violation("shared-pool", {"kw": k, "scheme": "http", "values": ["A", "B"], "via": "proxy-forwarded"}, spec,
+                              observed="one pool for %s=A and %s=B" % (k, k), expected="distinct pools")
+            elif a1 is not a2:
+                acc.violation("equal-settings-different-pools", {"kw": k, "scheme": "http", "via": "proxy-forwarded"}, spec,
+                              observed="two pools for the same settings", expected="the cached pool")
+            else:
+                acc.outcomes["proxy-forwarded/distinct"] += 1
+
+
 def _nontrivial(seq):
     return any(c != seq[0] for c in seq[1:])
 
@@ -716,6 +758,9 @@ def _nontrivial(seq):
 def _worker(task):
     acc = Acc()
     kind = task[0]
+    if kind == "pxkw":
+        run_proxy_forwarded(task[1], acc)
+        return acc
     if kind == "kw":
         _, scheme, k, base, via, d, n = task
         calls = kw_calls(scheme, k)
@@ -752,6 +797,8 @@ def run(ctx):
             if ctx.thorough:  # thorough includes every quick case
                 for base, via, d in kw_configs(s, k):
                     tasks.append(("kw", s, k, base, via, d, 2))
+    for k in u.keywords:
+        tasks.append(("pxkw", k))
     triples = ctx.thorough
     nloc = len(loc_calls(triples))
     for base, via in LOC_CONFIGS:
